@@ -1,6 +1,7 @@
 package rules
 
 import (
+	"go/types"
 	"go/ast"
 	"go/constant"
 	"go/token"
@@ -321,71 +322,39 @@ func R9CycleGuard(c *Ctx) {
 		// phi elements (DemonInfo merged from both branches) are handled by looking at the store's block facts
 		n++
 		guarded := false
+		sameElem := func(el ssa.Value) bool {
+			return el == ls.elem || DerivesFrom(ls.elem, func(v ssa.Value) bool { return v == el }) || DerivesFrom(el, func(v ssa.Value) bool { return v == ls.elem })
+		}
 		for _, f := range FactsAt(ls.st.Block()) {
-			// a boolean flag (phi of constants) that is false here and becomes true only under `ancestor == elem`
-			ph, ok := f.Cond.(*ssa.Phi)
-			if !ok || f.Truth {
+			if f.Truth {
 				continue
 			}
-			srcs, other := trueSources(ph)
-			if len(other) > 0 || len(srcs) == 0 {
-				continue
-			}
-			all := true
-			for _, sb := range srcs {
-				okCmp := false
-				if sb != nil {
-					for _, f2 := range FactsAt(sb) {
-						bo, isBin := f2.Cond.(*ssa.BinOp)
-						if !isBin || bo.Op != token.EQL || !f2.Truth {
-							continue
-						}
-						for _, pair := range [][2]ssa.Value{{bo.X, bo.Y}, {bo.Y, bo.X}} {
-							anc, el := pair[0], pair[1]
-							aph, isPhi := anc.(*ssa.Phi)
-							if !isPhi {
-								continue
-							}
-							// ancestor walk: starts at the receiver, steps through Pivots.Parent
-							startsAtRecv, stepsParent := false, false
-							for _, e := range aph.Edges {
-								if IsParam(e, td.Params[0]) {
-									startsAtRecv = true
-								}
-								if DerivesFrom(e, IsFieldLoad(PkgAgent+".Pivots", "Parent")) && DerivesFrom(e, func(v ssa.Value) bool { return v == ssa.Value(aph) }) {
-									stepsParent = true
-								}
-							}
-							if startsAtRecv && stepsParent && (el == ls.elem || DerivesFrom(ls.elem, func(v ssa.Value) bool { return v == el }) || DerivesFrom(el, func(v ssa.Value) bool { return v == ls.elem })) {
-								// inside the walk nothing else may condition the flag: only the loop
-								// condition (ancestor != nil) and this comparison
-								clean := true
-								for _, f3 := range FactsAt(sb) {
-									if !aph.Block().Dominates(f3.If.Block()) {
-										continue
-									}
-									if f3.If == f2.If {
-										continue
-									}
-									b3, isBin3 := f3.Cond.(*ssa.BinOp)
-									if isBin3 && (b3.X == ssa.Value(aph) || b3.Y == ssa.Value(aph)) && (isNilConst(b3.X) || isNilConst(b3.Y)) {
-										continue
-									}
-									clean = false
-								}
-								if clean {
-									okCmp = true
-								}
-							}
-						}
+			switch cond := f.Cond.(type) {
+			case *ssa.Phi:
+				// a boolean flag (phi of constants) that is false here and becomes true only under `ancestor == elem`
+				srcs, other := trueSources(cond)
+				if len(other) > 0 || len(srcs) == 0 {
+					continue
+				}
+				all := true
+				for _, sb := range srcs {
+					if sb == nil || !ancestorCompareAt(sb, func(v ssa.Value) bool { return IsParam(v, td.Params[0]) }, sameElem) {
+						all = false
 					}
 				}
-				if !okCmp {
-					all = false
+				if all {
+					guarded = true
 				}
-			}
-			if all {
-				guarded = true
+			case *ssa.Call:
+				// the walk extracted into a helper: helper(start, elem) is true exactly when the walk from start meets elem
+				h := cond.Call.StaticCallee()
+				if h == nil || h.Blocks == nil || len(cond.Call.Args) != len(h.Params) {
+					continue
+				}
+				si, ei, ok := ancestorWalkSummary(h)
+				if ok && IsParam(cond.Call.Args[si], td.Params[0]) && sameElem(cond.Call.Args[ei]) {
+					guarded = true
+				}
 			}
 		}
 		construct := "a.Pivots.Links = append(…, AgentInstance(<packet id>))"
@@ -504,4 +473,121 @@ func R9MoveUnlinks(c *Ctx) {
 	if n == 0 {
 		c.R.Anchor(rule, "the reconnect append of an AgentInstance result to a.Pivots.Links")
 	}
+}
+
+// ancestorCompareAt: block sb is reached only under `anc == el` where anc is the cursor of an ancestor walk (a phi
+// that starts at a value accepted by isStart and steps through .Pivots.Parent) and el is accepted by isElem; inside
+// the walk nothing but the loop condition (anc != nil) and this comparison conditions sb.
+func ancestorCompareAt(sb *ssa.BasicBlock, isStart, isElem func(ssa.Value) bool) bool {
+	facts := FactsAt(sb)
+	for _, f2 := range facts {
+		bo, isBin := f2.Cond.(*ssa.BinOp)
+		if !isBin || bo.Op != token.EQL || !f2.Truth {
+			continue
+		}
+		for _, pair := range [][2]ssa.Value{{bo.X, bo.Y}, {bo.Y, bo.X}} {
+			anc, el := pair[0], pair[1]
+			aph, isPhi := anc.(*ssa.Phi)
+			if !isPhi || !isElem(el) {
+				continue
+			}
+			startsAtRecv, stepsParent, otherStart := false, false, false
+			for _, e := range aph.Edges {
+				switch {
+				case isStart(e):
+					startsAtRecv = true
+				case DerivesFrom(e, IsFieldLoad(PkgAgent+".Pivots", "Parent")) && DerivesFrom(e, func(v ssa.Value) bool { return v == ssa.Value(aph) }):
+					stepsParent = true
+				default:
+					otherStart = true
+				}
+			}
+			if !startsAtRecv || !stepsParent || otherStart {
+				continue
+			}
+			clean := true
+			for _, f3 := range facts {
+				if !aph.Block().Dominates(f3.If.Block()) || f3.If == f2.If {
+					continue
+				}
+				b3, isBin3 := f3.Cond.(*ssa.BinOp)
+				if isBin3 && (b3.X == ssa.Value(aph) || b3.Y == ssa.Value(aph)) && (isNilConst(b3.X) || isNilConst(b3.Y)) {
+					continue
+				}
+				clean = false
+			}
+			if clean {
+				return true
+			}
+		}
+	}
+	return false
+}
+
+// ancestorWalkSummary: h is a boolean helper whose result is true only where an ancestor walk that starts at its
+// parameter `start` meets its parameter `elem`, and false only after the walk ran off the top (cursor == nil).
+func ancestorWalkSummary(h *ssa.Function) (start, elem int, ok bool) {
+	if h.Signature.Results().Len() != 1 || !isBoolType(h.Signature.Results().At(0).Type()) {
+		return 0, 0, false
+	}
+	for si, sp := range h.Params {
+		for ei, ep := range h.Params {
+			if si == ei {
+				continue
+			}
+			isStart := func(v ssa.Value) bool { return IsParam(v, sp) }
+			isElem := func(v ssa.Value) bool { return IsParam(v, ep) }
+			good, nTrue := true, 0
+			for _, b := range h.Blocks {
+				ret, isRet := b.Instrs[len(b.Instrs)-1].(*ssa.Return)
+				if !isRet || len(ret.Results) != 1 {
+					continue
+				}
+				srcs, other := trueSources(ret.Results[0])
+				if len(other) > 0 {
+					good = false
+					break
+				}
+				for _, sb := range srcs {
+					if sb == nil {
+						sb = b
+					}
+					nTrue++
+					if !ancestorCompareAt(sb, isStart, isElem) {
+						good = false
+					}
+				}
+				// a false result: only once the cursor is nil (not an early give-up inside the walk)
+				if isBoolConst(ret.Results[0], false) {
+					ended := false
+					for _, f := range FactsAt(b) {
+						bo, isBin := f.Cond.(*ssa.BinOp)
+						if !isBin {
+							continue
+						}
+						if _, isPhi := bo.X.(*ssa.Phi); !isPhi {
+							if _, isPhi2 := bo.Y.(*ssa.Phi); !isPhi2 {
+								continue
+							}
+						}
+						if (isNilConst(bo.X) || isNilConst(bo.Y)) && ((bo.Op == token.NEQ && !f.Truth) || (bo.Op == token.EQL && f.Truth)) {
+							ended = true
+						}
+					}
+					if !ended {
+						good = false
+					}
+				}
+			}
+			if good && nTrue > 0 {
+				return si, ei, true
+			}
+		}
+	}
+	return 0, 0, false
+}
+
+func isBoolType(t types.Type) bool {
+	b, ok := t.Underlying().(*types.Basic)
+	return ok && b.Info()&types.IsBoolean != 0
 }
